@@ -567,6 +567,11 @@ fn jcollect(v: &Value, path: &mut Vec<JSeg>, arrays: &mut Vec<Vec<JSeg>>, nums: 
         }
         Value::Object(m) => {
             for (k, x) in m.iter() {
+                // replica configurations are preconditions of a case, not part of what is searched:
+                // client ids must stay distinct and below 2^53, some parts require a GC setting
+                if FROZEN_KEYS.contains(&k.as_str()) {
+                    continue;
+                }
                 path.push(JSeg::Key(k.clone()));
                 jcollect(x, path, arrays, nums, bools, all);
                 path.pop();
@@ -577,6 +582,9 @@ fn jcollect(v: &Value, path: &mut Vec<JSeg>, arrays: &mut Vec<Vec<JSeg>>, nums: 
         _ => {}
     }
 }
+
+/// object keys the mutator never descends into
+const FROZEN_KEYS: [&str; 10] = ["cfgs", "observers", "skip_gc", "utf16", "cleanup", "scope", "off", "n", "peers", "Num"];
 
 /// 1–3 structural mutations: remove / duplicate / swap / truncate elements of a list (steps,
 /// operations, schedules …), insert an element or graft a subtree taken from the same place of a
@@ -603,7 +611,8 @@ pub fn mutate_case(case: &Value, donor: &Value, seed: u64) -> Value {
                 let (a1, a2) = (next(), next());
                 if let Some(Value::Array(a)) = jget_mut(&mut out, &path) {
                     match kind {
-                        0 if !a.is_empty() => {
+                        // (lists never become empty: several case types index their schedules modulo the length)
+                        0 if a.len() >= 2 => {
                             let i = pick(a.len(), a1);
                             a.remove(i);
                         }
